@@ -3,6 +3,5 @@
 // ---------------------------------------------------------------- oracles (ASSUMED: deterministic, otherwise arbitrary)
 pub uninterp spec fn lp_status(p: Polytope) -> PolytopeStatus;
 pub uninterp spec fn contains_tol(p: Polytope, x: Array1<f64>) -> bool;
-pub uninterp spec fn path_poly<const K: usize>(a: AArena<K>, path: Seq<(usize, usize)>) -> Polytope;
 
 // ---- end lp_oracle_spec ----
